@@ -21,7 +21,8 @@ UnaryChecks(e) ==
     \cup Fail("iter-ascending", e.iter = Ascending(S))
     \cup Fail("size_hint", e.hint_lo = Count(S) /\ e.hint_hi = Count(S))
     \cup Fail("contains", SeqToSet(e.members) = S)
-    \cup Fail("collect", SeqToSet(e.collected) = S)
+    \cup Fail("collect", SeqToSet(e.collected) = S /\ SeqToSet(e.collected_bb) = S)
+    \cup Fail("collect-overlapping-inputs", SeqToSet(e.collected_overlap) = S /\ SeqToSet(e.collected_dups) = S)
     \cup Fail("with-cleared", \A i \in 1..Len(e.wc) : LET w == e.wc[i] IN
                  SeqToSet(w.with) = With(S, w.sq) /\ SeqToSet(w.cleared) = Cleared(S, w.sq))
     \cup Fail("nth", \A i \in 1..Len(e.nth) : LET t == e.nth[i] IN
